@@ -148,6 +148,29 @@ def _pin_function_names(j, unit_name):
                 cands.append(nk)
         if len(cands) == 1:
             ren[cands[0]] = k
+    # a function that MOVED (to another module, into/out of an impl block, possibly renamed on the way): no candidate in
+    # its old place, but exactly one new function of the whole unit has its full signature (all parameter types and the
+    # return type, at least one parameter) and no other missing function shares that signature
+    def full_sig_pinned(e):
+        ps = {i: t for (i, t, n) in (tuple(x) for x in e["locals"]) if 1 <= i <= e["argc"]}
+        if len(ps) != e["argc"] or e["argc"] < 1:
+            return None
+        return (e["argc"], tuple(ps[i] for i in range(1, e["argc"] + 1)), e.get("ret"))
+    still_missing = [k for k in missing if k not in ren.values()]
+    still_new = [k for k in new if k not in ren]
+    sig_m = {}
+    for k in still_missing:
+        fs = full_sig_pinned(pinned[k])
+        if fs is not None:
+            sig_m.setdefault(fs, []).append(k)
+    sig_n = {}
+    for nk in still_new:
+        sig_n.setdefault(sig(cur[nk]), []).append(nk)
+    for fs, ks in sig_m.items():
+        if len(ks) == 1 and len(sig_n.get(fs, [])) == 1:
+            nk = sig_n[fs][0]
+            # same name, or the only new function with that signature: taken as the moved one
+            ren[nk] = ks[0]
     if not ren:
         return {}
 
@@ -277,8 +300,13 @@ def pin_names(body):
     # parameters by position
     if ent.get("argc") == body.argc:
         pp = {i: n for (i, t, n) in pin if 1 <= i <= body.argc}
+        have = {n for (i, t, n) in cur if 1 <= i <= body.argc}
         for (i, t, n) in cur:
             if 1 <= i <= body.argc and i in pp:
+                # a parameter that carries a pinned parameter name keeps it (the parameters may have been REORDERED,
+                # see _undo_param_reorder); one that does not is the renamed parameter of that position
+                if n in pp.values() or pp[i] in have:
+                    continue
                 if body.locals[i]["name"] != pp[i]:
                     body.renames[body.locals[i]["name"]] = pp[i]
                 body.locals[i]["name"] = pp[i]
@@ -332,6 +360,64 @@ def pin_names(body):
                                 e[2] = ren[e[1]]
 
 
+def _undo_param_reorder(prog):
+    """A function whose parameters are exactly the pinned ones in ANOTHER ORDER (all named, no duplicates, same count):
+    the rules, positional spec strings (`arg3.sequence_id`) and call-site checks are written for the pinned order, so the
+    body's parameter locals are permuted back and the arguments of every call of it are permuted the same way.
+    Returns {function key: {current position: pinned position}}."""
+    pinned = pinned_names()
+    out = {}
+    for b in list(prog.bodies.values()):
+        if b.is_closure or b.is_test():
+            continue
+        ent = pinned.get(b.key)
+        if not ent or ent.get("argc") != b.argc or b.argc < 2:
+            continue
+        pp = {i: n for (i, t, n) in (tuple(x) for x in ent["locals"]) if 1 <= i <= b.argc}
+        cur = {i: b.locals[i].get("name") for i in range(1, b.argc + 1)}
+        if len(pp) != b.argc or None in cur.values() or len(set(cur.values())) != b.argc or \
+                set(cur.values()) != set(pp.values()) or len(set(pp.values())) != b.argc:
+            continue
+        if all(cur[i] == pp[i] for i in cur):
+            continue
+        inv = {n: i for i, n in pp.items()}
+        perm = {i: inv[cur[i]] for i in cur}            # current position -> pinned position
+        # the body: renumber the parameter locals
+        def f(o):
+            if isinstance(o, dict):
+                if "l" in o and isinstance(o.get("proj"), list) and isinstance(o["l"], int):
+                    o["l"] = perm.get(o["l"], o["l"])
+                    for e in o["proj"]:
+                        if e and e[0] == "index" and isinstance(e[1], int):
+                            e[1] = perm.get(e[1], e[1])
+                for v in o.values():
+                    f(v)
+            elif isinstance(o, list):
+                for v in o:
+                    f(v)
+        f(b.blocks)
+        old_locals = list(b.locals)
+        for i, pi in perm.items():
+            b.locals[pi] = old_locals[i]
+        # the call sites
+        key = b.j["key"]
+        for c in prog.bodies.values():
+            if c.unit.crate != b.unit.crate and c.unit is not b.unit:
+                continue
+            for blk in c.blocks:
+                t = blk["term"]
+                if t["k"] != "call" or not isinstance(t.get("func"), dict):
+                    continue
+                fn = t["func"].get("fn")
+                if not fn or (fn.get("resolved") or fn.get("key")) != key or len(t["args"]) != b.argc:
+                    continue
+                args = list(t["args"])
+                for i, pi in perm.items():
+                    t["args"][pi - 1] = args[i - 1]
+        out[b.key] = perm
+    return out
+
+
 class Program:
     """All units of one configuration. Bodies are addressed by key; the statime-linux binary crate
     is also called `statime`, so its keys are prefixed with `bin:`."""
@@ -361,6 +447,10 @@ class Program:
                 pin_names(b)
             except Exception:
                 pass
+        try:
+            self.param_reorders = _undo_param_reorder(self)
+        except Exception as e:
+            self.param_reorders = {"error": repr(e)}
         # the field names of closure aggregates in the parents follow the closures' (pinned) capture names
         pn = pinned_names()
         for b in self.bodies.values():
@@ -468,6 +558,13 @@ class Program:
 
     def one(self, **kw):
         r = self.find(**kw)
+        if not r and kw.get("self_name") and kw.get("name"):
+            # the function may have moved out of (or into) an impl block: a unique function of that name in the crate
+            kw2 = dict(kw)
+            kw2.pop("self_name")
+            r2 = self.find(**kw2)
+            if len(r2) == 1:
+                r = r2
         if len(r) != 1:
             raise AnchorMissing("expected exactly one body for %r, found %d: %s" % (kw, len(r), [b.key for b in r]))
         return r[0]
